@@ -9,6 +9,9 @@ CONSTANTS
   MaxP <- MCMaxP
   Ops <- MCOps
   Shipped <- MCShipped
+  Seeds <- MCSeeds
+  Foreign <- MCForeign
+  QKinds <- MCQKinds
 INIT Init
 NEXT MCNext
 VIEW View
